@@ -6,7 +6,26 @@ from specs.seqs import first_common_z, disjoint_z, no_common_before_z
 
 ASSUMPTIONS = [
     'hash, signature and DH/ECDH primitives are uninterpreted (collision resistance / EUF-CMA are crypto assumptions)',
-    'GSS key exchange call sites are not verified (library absent in the sandbox)',
+    'GSS key exchange call sites are not verified (library absent in the sandbox); _process_kexinit is verified with '
+    '_gss_kex off',
+    'is_client()/is_server() are abstracted by a ghost boolean _is_client of the connection (real code: not self._server)',
+    'the hash object is a ghost accumulator: update(x) appends x, digest() = hash_of(everything appended); '
+    'packet.MPInt and int.from_bytes(signed=True) are uninterpreted (mpint_enc assumed injective, RFC 4251 5)',
+    '_process_kexinit is verified as three consecutive regions [parse] [record] [negotiate]; every mid-condition is an '
+    'ensures of the preceding region (packet consumed completely; the eight name-list locals unchanged), and '
+    '[negotiate] is proved for arbitrary values of those locals.  Region contracts have no native replay: the bounded '
+    'native stand-in specs/c03_native.py supplies concrete failing inputs for them',
+    'negotiation postconditions identify, for every recorded algorithm, the _choose_alg call (our list, the peer list of '
+    'the same category and direction) whose result it is; what that call returns is the contract proved for '
+    '_choose_alg (first entry of the client list that the server list contains)',
+    '_recv_version: the three banner / version limits are generalised to arbitrary positive integers (replays patch '
+    'the module constants to the model values)',
+    'get_kex(conn, alg).algorithm == alg for non-GSS methods (Kex.__init__), encryption_needs_mac is a function of '
+    'its argument (table lookup): assumed callee contracts',
+    '_send_kexinit, send_newkeys, validate_server_host_key, key.verify/sign, DH/ECDH/PQ objects are callee stubs here '
+    '(send side: C02/C11).  send_newkeys call sites: kex_dh._verify_reply (client, pre-at-call verified), '
+    'kex_dh._perform_reply (server, consistency verified), kex_rsa._process_done (client, pre-at-call verified), '
+    'kex_rsa._process_secret (server) and the GSS handlers are NOT under contract',
 ]
 
 CONN = {'_is_client': 'bool'}
@@ -185,6 +204,50 @@ choose_alg_bytes = Spec(
 Spec.registry.remove(choose_alg_bytes)
 
 
+def bounded_kexinit(tier, seed):
+    """Bounded native stand-in (NOT counted as proof): the real _process_kexinit, both roles, on random KEXINIT
+    payloads with asymmetric name-lists, compared with RFC 4253 7.1 (specs/c03_native.py).  Gives the region
+    contracts of _process_kexinit (which cannot be replayed natively) a concrete failing input when they break."""
+    import json
+    import os
+    import subprocess
+    from pyvc import extract
+    name = 'C03.bounded#process_kexinit-vs-rfc4253-7.1(native, random asymmetric name-lists)'
+    n = 1500 if tier == 'thorough' else 300
+    script = os.path.join(os.path.dirname(os.path.dirname(os.path.abspath(__file__))), 'specs', 'c03_native.py')
+    try:
+        p = subprocess.run(['/venv/bin/python', script, str(seed), str(n)], capture_output=True, text=True,
+                           env=dict(os.environ, PYTHONPATH=extract.REPO), timeout=120)
+        out = json.loads(p.stdout)
+        return {'name': name, 'inputs': out['cases'], 'violations': out['violations']}
+    except Exception as e:      # harness trouble is never a verdict
+        return {'name': name, 'inputs': 0, 'violations': [], 'error': repr(e)}
+
+
+def lemma_transcript_injective():
+    """String(V_C)||String(V_S)||String(I_C)||String(I_S)||String(K_S)||rest is injective in every item (fixed order,
+    uint32 length prefixes - same per-use axioms for be(4, n) as the engine's String model): two endpoints that
+    differ in a version string, a KEXINIT payload or the host key blob feed different strings to the hash."""
+    from pyvc.builtins_model import be as _be, unbe as _unbe
+
+    def S(v):
+        return z3.Concat(_be(z3.IntVal(4), z3.Length(v)), v)
+    a = [z3.Const(f'inj_a{i}', BytesS) for i in range(5)]
+    b = [z3.Const(f'inj_b{i}', BytesS) for i in range(5)]
+    ra, rb = z3.Const('inj_ra', BytesS), z3.Const('inj_rb', BytesS)
+    sol = z3.Solver()
+    sol.set('timeout', 20000)
+    for v in a + b:
+        t = _be(z3.IntVal(4), z3.Length(v))
+        sol.add(z3.Length(t) == 4, _unbe(t) == z3.Length(v))
+    sol.add(z3.Concat(*[S(v) for v in a], ra) == z3.Concat(*[S(v) for v in b], rb))
+    sol.add(z3.Not(z3.And([x == y for x, y in zip(a, b)] + [ra == rb])))
+    res = sol.check()
+    return {'name': 'C03.lemma#transcript-injective(V_C,V_S,I_C,I_S,K_S,rest)',
+            'verdict': 'proved' if res == z3.unsat else ('refuted' if res == z3.sat else 'unknown'),
+            'reason': str(res)}
+
+
 def extra_checks(tier, seed):
     """lemma: the callee view is implied by the contract proved for _choose_alg (either role)"""
     S = z3.SeqSort(BytesS)
@@ -194,7 +257,7 @@ def extra_checks(tier, seed):
     sol.add(first_common_z(a, b, r))
     sol.add(z3.Not(z3.And(z3.Length(a) > 0, z3.Length(b) > 0)))
     res = sol.check()
-    return {'lemmas': [{'name': 'C03.lemma#choose-alg-callee-view(first_common => both lists non-empty)',
+    return {'bounded': [bounded_kexinit(tier, seed)], 'lemmas': [lemma_transcript_injective(), {'name': 'C03.lemma#choose-alg-callee-view(first_common => both lists non-empty)',
                         'verdict': 'proved' if res == z3.unsat else ('refuted' if res == z3.sat else 'unknown'),
                         'reason': str(res)}]}
 
@@ -325,7 +388,7 @@ KI_INLINE = dict(PACKET_INLINE, **{'SSHPacket.get_namelist': ('packet', 'SSHPack
 kexinit_parse = RSpec(
     'C03', 'connection', 'SSHConnection._process_kexinit', self_class='SSHConnection',
     params=KI_PARAMS, classes=KI_CLASSES, truthy=PACKET_TRUTHY, inline=KI_INLINE, stubs=KI_STUBS,
-    requires=ki_requires, region=lambda fn: fn.body[:_ki_cut0(fn)],
+    requires=ki_requires, region=lambda fn: fn.body[:_ki_cut0(fn)], tags=['split-qf'],
     ensures=[('packet-consumed-completely', ki_consumed), ('first-kex-follows-flag', ki_first_follows)] +
             [(f'{n}-is-namelist-{k + 1}-of-payload', ki_local_is_field(k)) for k, n in enumerate(KI_LOCALS)],
     raises={'ProtocolError': lambda c: z3.Not(c.oldv('_kex').isnone), 'PacketDecodeError': True})
@@ -640,8 +703,8 @@ def send_newkeys_after_verify(cx):
     ver = _prior(cx, 'key.verify')
     hs = _prior(cx, '_compute_hash')
     ks = _prior(cx, '_compute_client_shared')
-    ok = z3.BoolVal(len(ver) == 1 and len(hs) == 1 and len(ks) == 1)
-    if len(ver) == 1 and len(hs) == 1 and len(ks) == 1:
+    ok = z3.BoolVal(False)
+    if len(ver) == 1 and len(hs) == 1 and len(ks) == 1 and 'key_data' in cx.st.env and 'sig' in cx.st.env:
         key_data, sig = cx.st.env['key_data'].z, cx.st.env['sig'].z
         ok = z3.And(cx.ex.truthy(cx.st, ver[0]['ret']),              # verify(...) returned true
                     ver[0]['args'][0].z == h, ver[0]['args'][1].z == sig,
@@ -943,7 +1006,7 @@ def rsa_newkeys_after_verify(cx):
     val = _prior(cx, 'validate_server_host_key')
     ok = z3.BoolVal(False)
     if len(ver) == 1 and len(hs) == 1 and len(val) == 1 and isinstance(ver[0]['recv'], VRef) \
-            and isinstance(val[0]['ret'], VRef):
+            and isinstance(val[0]['ret'], VRef) and 'sig' in cx.st.env:
         sig = cx.st.env['sig'].z
         ok = z3.And(z3.BoolVal(ver[0]['recv'].addr == val[0]['ret'].addr),       # the VALIDATED key verified it
                     val[0]['args'][0].z == cx.selff('_host_key_data').z,         # ... the blob that is hashed
@@ -974,3 +1037,100 @@ rsa_process_done = Spec(
             'HostKeyNotVerifiable': True, 'KeyImportError': True},
     modifies=[])
 rsa_process_done.no_replay = True
+
+
+# ===================================================================== hybrid PQ/ECDH (mlkem768x25519, sntrup761x25519)
+# the peer's public blob is split at the PQ size with nothing dropped or re-used, a ValueError of either primitive
+# ends the exchange with ProtocolError, K = String(hash(pq_secret || ec_secret))
+HY_FIELDS = dict(KEX_FIELDS, _pq='obj:PQ')
+HY_CLASSES = dict(KEX_CLASSES, _KexHybridECDH=HY_FIELDS, PQ={'ciphertext_bytes': 'int', 'pubkey_bytes': 'int'})
+
+
+def hash_new_with(cx):
+    h = cx.ex.new_object(cx.st, 'Hash', 'hash_obj')
+    cx.st.set_field(h, 'ghost_acc', VBytes(cx.args[0].z if cx.args else z3.Empty(BytesS)))
+    return [Out(ret=h)]
+
+
+hash_new_with.modifies = ()
+
+
+def _val_err(inner_ret, name):
+    def stub(cx):
+        return [Out(ret=cx.fresh(inner_ret, name), event=(name, tuple(cx.args))),
+                Out(exc=VExc('ValueError'), event=(name + '_invalid', tuple(cx.args)))]
+    stub.modifies = ()
+    return stub
+
+
+def hy_client_post(c):
+    d, g = c.events('decaps'), c.events('ec_shared_bytes')
+    if len(d) != 1 or len(g) != 1:
+        return z3.BoolVal(False)
+    sec, ecs = c.calls('decaps')[0]['ret'].z, c.calls('get_shared_bytes')[0]['ret'].z
+    return z3.And(z3.Concat(d[0][1][0].z, g[0][1][0].z) == c.old('_server_pub'),
+                  z3.Length(d[0][1][0].z) == z3.If(c.old('ciphertext_bytes', c.oldv('_pq')) <=
+                                                   z3.Length(c.old('_server_pub')),
+                                                   c.old('ciphertext_bytes', c.oldv('_pq')),
+                                                   z3.Length(c.old('_server_pub'))),
+                  c.result == ssh_string_z(_hashfn(z3.Concat(sec, ecs))))
+
+
+def hy_failed(c):
+    return z3.BoolVal(len(c.events('decaps_invalid')) + len(c.events('encaps_invalid')) +
+                      len(c.events('ec_shared_bytes_invalid')) == 1)
+
+
+hybrid_client_shared = Spec(
+    'C03', 'kex_dh', '_KexHybridECDH._compute_client_shared', self_class='_KexHybridECDH', classes=HY_CLASSES,
+    stubs={'self._pq.decaps': _val_err('bytes', 'decaps'),
+           'self._priv.get_shared_bytes': _val_err('bytes', 'ec_shared_bytes'),
+           'self._hash_alg': hash_new_with, 'Hash.digest': hash_digest},
+    requires=lambda c: c.old('ciphertext_bytes', c.oldv('_pq')) >= 0,
+    ensures=[('peer-blob-split-exactly;K==String(hash(pq||ec))', hy_client_post)],
+    raises={'ProtocolError': hy_failed}, modifies=[], returns='bytes')
+hybrid_client_shared.no_replay = True
+
+
+def hy_server_post(c):
+    e, g = c.events('encaps'), c.events('ec_shared_bytes')
+    if len(e) != 1 or len(g) != 1:
+        return z3.BoolVal(False)
+    r = c.calls('encaps')[0]['ret']
+    sec, ct = r.items[0].z, r.items[1].z
+    ecs = c.calls('get_shared_bytes')[0]['ret'].z
+    return z3.And(z3.Concat(e[0][1][0].z, g[0][1][0].z) == c.old('_client_pub'),
+                  c.new('_server_pub') == z3.Concat(ct, c.old('_server_pub')),
+                  c.new('_client_pub') == c.old('_client_pub'),
+                  c.result == ssh_string_z(_hashfn(z3.Concat(sec, ecs))))
+
+
+hybrid_server_shared = Spec(
+    'C03', 'kex_dh', '_KexHybridECDH._compute_server_shared', self_class='_KexHybridECDH', classes=HY_CLASSES,
+    stubs={'self._pq.encaps': _val_err('tuple[bytes,bytes]', 'encaps'),
+           'self._priv.get_shared_bytes': _val_err('bytes', 'ec_shared_bytes'),
+           'self._hash_alg': hash_new_with, 'Hash.digest': hash_digest},
+    requires=lambda c: c.old('pubkey_bytes', c.oldv('_pq')) >= 0,
+    ensures=[('peer-blob-split-exactly;reply-blob==ct||Q_S;K==String(hash(pq||ec))', hy_server_post)],
+    raises={'ProtocolError': lambda c: z3.And(hy_failed(c), c.new('_server_pub') == c.old('_server_pub'))},
+    returns='bytes')
+hybrid_server_shared.no_replay = True
+
+
+# ===================================================================== robustness of the clauses themselves
+def _total(fn):
+    """a clause that cannot even be evaluated on a path (the call / event it talks about is missing there) is false
+    on that path, never a checker crash"""
+    def wrapped(c):
+        try:
+            return fn(c)
+        except (IndexError, KeyError, AttributeError, TypeError):
+            return z3.BoolVal(False)
+    wrapped.__name__ = getattr(fn, '__name__', 'clause')
+    return wrapped
+
+
+for _sp in [s_ for s_ in Spec.registry if s_.prop == 'C03' and s_ is not choose_alg]:
+    _sp.ensures = [(l_, _total(f_)) for l_, f_ in _sp.ensures]
+    _sp.always = [(l_, _total(f_)) for l_, f_ in _sp.always]
+    _sp.raises = {k_: (v_ if v_ is True else _total(v_)) for k_, v_ in _sp.raises.items()}
